@@ -343,6 +343,11 @@ func ResolveStateConflictsV2New(
 	if stateResAlgo == StateResV2 {
 		unconflicted = r.reverseTopologicalOrdering(unconflicted, TopologicalOrderByAuthEvents)
 		r.applyEvents(unconflicted...)
+	} else if create := getCreateEvent(unconflicted); create != nil {
+		// The create event is never conflicted and, in rooms with privileged
+		// creators, is not listed in auth_events: the sender's power level and
+		// the auth checks both need it before any other event is considered.
+		r.applyEvents(create)
 	}
 
 	// Then order the conflicted power level events topologically and then also
